@@ -15,6 +15,10 @@ pub enum Law {
     Span(u32),
     /// a tight cluster followed by one long gap
     ClusterGap(u32),
+    /// first-to-last span exactly `span`; the last 32 ones of the group are packed at the very end
+    /// of the span with one hole `hole` positions before the last one (a near-run whose sub-block
+    /// offset is as large as a 16-bit offset can get)
+    SpanTail(u32, u8),
 }
 
 #[derive(Clone, Copy, Debug, PartialEq, Eq, Hash, Serialize, Deserialize)]
@@ -130,6 +134,31 @@ impl BitContent {
                             }
                             cur += span + 1 + r.below_usize(3);
                         }
+                        Law::SpanTail(span, hole) => {
+                            let span = (span as usize).max(c + 40);
+                            // c ones: the first c-32 spread over the first part, then 32 of the last 33
+                            // positions of the span (one hole)
+                            let tail = 32.min(c);
+                            let head = c - tail;
+                            let room = span - 33;
+                            let mut set = std::collections::BTreeSet::new();
+                            if head > 0 {
+                                set.insert(0usize);
+                            }
+                            while set.len() < head.min(room) {
+                                set.insert(r.below_usize(room));
+                            }
+                            for o in set {
+                                pos.push(cur + o);
+                            }
+                            let hole_at = span - 1 - (hole as usize % 32).max(1).min(31);
+                            for o in span - 32..=span {
+                                if o != hole_at && pos.len() < usize::MAX {
+                                    pos.push(cur + o);
+                                }
+                            }
+                            cur += span + 1 + r.below_usize(3);
+                        }
                         Law::ClusterGap(gap) => {
                             for _ in 0..c {
                                 pos.push(cur);
@@ -223,6 +252,7 @@ fn law() -> BoxedStrategy<Law> {
         4 => (64u16..=600, 0u16..=3500).prop_map(|(a, b)| Law::Sparse(a, b)),
         3 => prop_oneof![Just(65535u32), Just(65536), Just(65537), Just(65534), 60000u32..70000].prop_map(Law::Span),
         1 => (0u32..200_000).prop_map(Law::ClusterGap),
+        2 => (prop_oneof![Just(65535u32), Just(65534), Just(65536), Just(65503)], any::<u8>()).prop_map(|(s, h)| Law::SpanTail(s, h)),
     ]
     .boxed()
 }
